@@ -26,6 +26,7 @@ T8 = [
     ("dyn_write", r"&mut dyn (?:io::|std::io::)?Write\b", "DynWrite<'_>", "trait object replaced by the opaque shim DynWrite"),
     ("flate2_read", r"flate2::read::DeflateDecoder", "DeflateDecoder", "crate path resolves to the decoder shim"),
     ("std_io", r"(?<![\w:])(?:::)?std::io::(Take|Read|Write|Seek|Result|Error|ErrorKind)\b", r"io::\1", "absolute std::io path resolves to the io shim module"),
+    ("std_path", r"(?<![\w:])::std::path::(PathBuf|Path|Component|MAIN_SEPARATOR)\b", r"path::\1", "absolute std::path path resolves to the path shim module"),
 ]
 def apply_t8(text, where, log):
     for name, rx, rep, note in T8:
@@ -118,12 +119,13 @@ def parse_vc(ident, text):
                 fs.sigsuffix = val; sec = None
             elif key == "hoisted_items":
                 fs.hoisted = val in ("yes", "true"); sec = None
-            elif key == "rewrite":
-                # rewrite: /regex/ => replacement
+            elif key in ("rewrite", "rewrite!"):
+                # rewrite: /regex/ => replacement     (`rewrite!`: the construct must be present - a ghost-only annotation
+                # (T12 closure contract) whose loss would leave the proof without a needed fact: 0 matches = lost anchor)
                 m = re.match(r"/(.*)/\s*=>\s*(.*)$", val)
                 if not m:
                     raise ScanError("bad rewrite in %s" % ident)
-                fs.rewrites.append((m.group(1), m.group(2))); sec = None
+                fs.rewrites.append((m.group(1), m.group(2), key.endswith("!"))); sec = None
             elif key in ("requires", "ensures"):
                 sec = key
             elif key == "decreases":
@@ -656,8 +658,10 @@ def add_fn(unit, fs):
             whole = new
             unit.log.append("T7 %s: rule `%s` applied %d time(s) [%s]" % (where, name, cnt, note))
     whole = apply_t8(whole, where, unit.log)
-    for rx, rep in fs.rewrites:
+    for rx, rep, must in [(r[0], r[1], (r[2] if len(r) > 2 else False)) for r in fs.rewrites]:
         cnt = len(re.findall(rx, whole))
+        if not cnt and must:
+            raise ScanError("lost anchor: mandatory rewrite /%s/ in %s has no match" % (rx, fs.ident))
         if not cnt:
             # the construct is gone: nothing to rewrite; Verus decides whether the new text is acceptable
             unit.log.append("T7x %s: per-function rewrite /%s/ not applicable (0 matches)" % (where, rx))
@@ -681,7 +685,7 @@ def add_fn(unit, fs):
         "id": fs.ident, "file": fs.file, "path": fs.path, "props": fs.props,
         "sha256": hashlib.sha256(orig.encode()).hexdigest(),
         "src_lines": [it.toks[0].line, it.toks[-1].line],
-        "out_lines": [fn_first, fn_last], "clauses": clauses + [{"kind": "invariant", "label": "loop%d" % k, "props": sp.get("props") or fs.props, "text": " ".join(sp["text"].split())[:300], "lines": []} for k, sp in fs.loops.items()]
+        "out_lines": [fn_first, fn_last], "clauses": clauses + [{"kind": "invariant", "label": "loop%d" % k, "props": sorted(set((sp.get("props") or []) + list(fs.props))), "text": " ".join(sp["text"].split())[:300], "lines": []} for k, sp in fs.loops.items()]
             + [{"kind": "ghost", "label": lab, "props": pr or fs.props, "text": " ".join(fs.ghosts[gi][3].split())[:300], "lines": []} for gi, (lab, pr) in sorted(getattr(fs, "ghost_labels", {}).items()) if gi < len(fs.ghosts)],
         "nobody": fs.nobody,
         "loops": len(loops),
